@@ -465,7 +465,8 @@ fn small_g(r: &mut Rng, f: Fam, bound: i64) -> G {
         Fam::Gauss | Fam::Eisen => G(vec![bi(r.range(-bound, bound)), bi(r.range(-bound, bound))]),
         Fam::Poly => {
             let d = r.below(2) as usize + 1;
-            G(trim((0..d).map(|_| bi(r.range(-1, 1))).collect()))
+            let b = bound.max(1);
+            G(trim((0..d).map(|_| bi(r.range(-b, b))).collect()))
         }
     }
 }
@@ -631,7 +632,29 @@ fn gen_complex(r: &mut Rng, p: &Plan, blocks: &[(usize, usize)]) -> GenComplex {
         let mut nrm = gm_zero(f, t.dim(), s.dim());
         for l in 0..s.a { nrm[l][s.b + l] = ch[l].clone(); }
         let m1 = gm_mul(f, &us[j + 1].0, &nrm, t.dim(), t.dim(), s.dim());
-        maps.push(gm_mul(f, &m1, &us[j].1, t.dim(), s.dim(), s.dim()));
+        let mut m = gm_mul(f, &m1, &us[j].1, t.dim(), s.dim(), s.dim());
+        if f == Fam::Poly && p.modp == 0 && p.bound > 1 {
+            // Q[x]: the non-zero constants are units that are not their own inverses; scaling the columns of the
+            // first map and the rows of the last map by them keeps f_(j+1) f_j = 0, ranks and torsion classes, and
+            // makes leading coefficients != +-1
+            if j == 0 {
+                for col in 0..s.dim() {
+                    if r.chance(1, 2) {
+                        let c = gint(f, *r.pick(&[2, 3, -2, 5, -3]));
+                        for row in m.iter_mut() { row[col] = gmul(f, &row[col], &c); }
+                    }
+                }
+            }
+            if j + 2 == len {
+                for row in m.iter_mut() {
+                    if r.chance(1, 2) {
+                        let c = gint(f, *r.pick(&[2, 3, -2, 5, -3]));
+                        for x in row.iter_mut() { *x = gmul(f, x, &c); }
+                    }
+                }
+            }
+        }
+        maps.push(m);
         chains.push(ch);
     }
     GenComplex { dims, maps, chains }
@@ -761,6 +784,11 @@ fn main() {
                 // no model dictionary: the property clauses are evaluated on the implementation's output only
                 Plan { ring: "qx", fam: Fam::Poly, count: 120 * s, cx: 15 * s, maxdim: 4, steps: 3, bound: 1, ..base.clone() },
                 Plan { ring: "f3x", fam: Fam::Poly, count: 120 * s, cx: 15 * s, modp: 3, maxdim: 4, steps: 3, bound: 1, ..base.clone() },
+                // non-monic entries (units of Q[x] other than +-1), larger Gaussian / Eisenstein multipliers: units that
+                // are not their own inverses take part in genuine gcd steps
+                Plan { ring: "qx", fam: Fam::Poly, count: 150 * s, cx: 15 * s, maxdim: 4, steps: 4, bound: 3, ..base.clone() },
+                Plan { ring: "gbig", fam: Fam::Gauss, count: 120 * s, cx: 15 * s, maxdim: 5, steps: 8, bound: 3, ..base.clone() },
+                Plan { ring: "ebig", fam: Fam::Eisen, count: 120 * s, cx: 15 * s, maxdim: 5, steps: 8, bound: 3, ..base.clone() },
             ];
             let emit = |o: &mut Out, c: String| {
                 let res = run_case(&c);
